@@ -95,4 +95,13 @@ CLAIMS = {
   text="Proved on the repaired connection model (F8, F9, F15, F16): an ownership invariant (every id in use is owned by a queued scrub, a queued operation or a routing entry; six clauses) is preserved by all ten events, hence in every history of fewer than 2^31-1 events a quiescent state has no reserved id and empty routing maps (c13_below_wrap), "
        "and in histories of any length that never issued an id twice (c13_all_schedules_partial, with c13_hypotheses_met). Abandon: the request names the id, the waiting caller is released with an error and the id is released when a routing entry existed. " + TIE + "one script in four is driven to quiescence; oracle: nothing reserved or routed when no operation is outstanding.",
   note=COMMON_NOTE + "PARTIAL beyond the wrap point (as C05)."),
+ "C10": dict(
+  text="Proved: for EVERY list of next()/finish()/state() calls the model of SearchStream (direct with the F7 repair, or adapted by EntriesOnly) produces the outputs of a 40-line specification machine written from the property's text - items in order then Ok(None), states Active/Done/Closed, finish() = server result (+ merged referral URIs for the adapter) after a full read, 88 otherwise, 80 the second time, next() outside Active = Ok(None) "
+       "(c10_all_call_sequences, c10_start_all_call_sequences: refinement via an abstraction function and an invariant); read-to-the-end theorems, search() collects entries in order, merges reference URIs and drops intermediates (c10_search_collects); at the connection level a search's item channel is exactly what the driver routed to it (c10_items_exact). "
+       "Tie to the code: server scripts x call sequences on real direct / adapted streams and Ldap::search over the in-memory transport vs the extracted model; an oracle restates the property per call; interleaved arrival is covered by the conn scripts.",
+  note=COMMON_NOTE + "Custom user adapters are out of scope. Error after a failure (state Error) is exercised by the conn/fault lanes (EndOfStream, Timeout)."),
+ "C16": dict(
+  text="Proved for every paging script and page size: draining the adapted stream yields the concatenation of all pages' items in order exactly once, ends Done, the final result is the last page's without the paging control, the first request carries paging(size, empty cookie) after the caller's controls, every follow-up repeats parameters and controls with the cookie last returned, paging stops at the first empty cookie (c16, c16_final_has_no_paging); a caller-supplied paging control is rejected at start (c16_rejects_caller_paging_control). "
+       "Tie to the code: a scripted paging server over the in-memory transport (result sets 0-29, page sizes 1-8, cookies to 300 bytes, empty first page, single page, unrelated controls) through the real PagedResults adapter vs the extracted model; the server's own request log is the oracle for the request chain.",
+  note=COMMON_NOTE + "The id of each follow-up search is released by F8's repair (C13)."),
 }
